@@ -331,13 +331,21 @@ theorem C05_gen_subclass :
 
 /-- **C05_gen_shape.**  Source shape the model relies on: the connection job runs the disconnect
     hook and the close in a `finally`; Worker.run notifies the pool after (outside) its try; the
-    multiplex server handles an inactive connection by hook, unregister, close; `_handshake` sends
-    its reply outside the try block and `handleRequest` re-raises what recv_stub raised. -/
+    multiplex server handles an inactive connection by hook, unregister, close; `denyConnection`
+    closes the socket on every path; no except / finally body of the transports makes a socket call
+    (getpeername, shutdown, send, ...) that is not itself contained (after a reset those raise, and an
+    exception raised inside a handler is caught by none of its sibling clauses: the model's handlers
+    never raise); with COMMTIMEOUT configured the accepted socket is given its timeout in the accept
+    loop before the job exists (so the refusal path, run by the acceptor, cannot block for ever on a
+    stalling peer) resp. before the multiplex handshake. -/
 theorem C05_gen_shape :
     Pyro.Gen.C05.threadFinally = ["_clientDisconnect", "close"] ∧
     Pyro.Gen.C05.workerNotifiesAfterTry = true ∧
     Pyro.Gen.C05.multiplexInactive = ["_clientDisconnect", "unregister", "close"] ∧
-    Pyro.Gen.C05.denyAlwaysCloses = true := by decide
+    Pyro.Gen.C05.denyAlwaysCloses = true ∧
+    Pyro.Gen.C05.unguardedSocketCalls = [] ∧
+    Pyro.Gen.C05.threadTimeoutBeforeJob = true ∧
+    Pyro.Gen.C05.multiplexTimeoutBeforeHandshake = true := by decide
 
 /-- **C05_current_source.**  The property for the ladders of the current source, from a daemon
     that has just started: the loop is running, no worker is stranded / the selector is exact. -/
